@@ -161,6 +161,12 @@ package contracts
 //@ extern func (ip net.IP) IsUnspecified() (r bool)
 //@   pure
 //@   ensures r == ipUnspec[base(ip)]
+//@ uf isLoopbackStr(s string) bool
+//@ extern func (ip net.IP) IsLoopback() (r bool)
+//@   pure
+//@   ensures r == isLoopbackStr(ipStr[base(ip)])
+//@ extern func (e builtin.error) Error() (s string)
+//@   pure
 //@ extern func (ip net.IP) To4() (r net.IP)
 //@   pure
 //@   ensures r != nil ==> len(r) == 4
